@@ -122,7 +122,12 @@ def c04_cfgs(tier):
          cfg('c04', 'D2', n=2, n1=3, streams=2, ringf=2, ringx=8, **base),
          cfg('c04', 2, n=2, ringf=1, ringx=1, **base),
          cfg('c04', 'D3', n=3, ringf=2, ringx=8, **base),
-         cfg('c04', 1, n=4, ringf=1, ringx=8, exposure=0)]                  # camera without exposure wait
+         cfg('c04', 1, n=4, ringf=1, ringx=8, exposure=0),                  # camera without exposure wait
+         cfg('c04', 'D2', n=5, ringf=3, ringx=8, append_ms=25, client=1, **base),  # slow storage + fast monitor: readers in different laps
+         cfg('c04', 'D2', n=5, ringf=2, ringx=56, append_ms=25, client=3, **base),
+         # the real devices of the common driver in the loop: simulated camera (with its streamer thread) + raw file writer
+         cfg('c04real', 1, n=3, ringf=2, ringx=8), cfg('c04real', 'D2', n=4, ringf=1, ringx=1), cfg('c04real', 'D2', n=3, trigger=1),
+         cfg('c04real', 'D2', n=3, abort_instead=1)]
     if tier == 'quick':
         return q
     t = list(q)
@@ -130,7 +135,9 @@ def c04_cfgs(tier):
           cfg('c04', 'D3', n=3, ringf=2, ringx=8, append_ms=25, **base), cfg('c04', 2, n=3, ringf=2, ringx=8, client=1, **base),
           cfg('c04', 'D3', n=4, ringf=3, ringx=8, client=4, **base), cfg('c04', 'D3', n=2, n1=3, streams=2, ringf=2, ringx=8, **base),
           cfg('c04', 'D3', n=4, ringf=2, ringx=8, write_delay=6, **base), cfg('c04', 'D3', n=3, ringf=2, ringx=8, client=3, **base),
-          cfg('c04', 'D4', n=3, ringf=2, ringx=8, **base), cfg('c04', 3, n=2, ringf=1, ringx=1, **base)]
+          cfg('c04', 'D4', n=3, ringf=2, ringx=8, **base), cfg('c04', 3, n=2, ringf=1, ringx=1, **base),
+          cfg('c04real', 1, n=4, ringf=1, ringx=1), cfg('c04real', 'D3', n=3, ringf=2, ringx=8), cfg('c04real', 'D3', n=3, trigger=1), cfg('c04real', 2, n=2, ringf=2, ringx=8),
+          cfg('c04real', 'D3', n=3, abort_instead=1), cfg('c04real', 'D2', n=3, camera='simulated: radial sin', storage='tiff')]
     return t
 
 
@@ -146,6 +153,8 @@ def c05_cfgs(tier):
     for (w, h) in ((1, 1), (3, 1), (5, 3), (2, 2), (7, 1), (3, 3)):
         for t in ((0, 1, 3) if tier == 'quick' else (0, 1, 2, 3, 5, 6, 7)):
             out.append(cfg('c10', 0, avg=2, n=4, ringf=3, ringx=8, fringf=2, fringx=8, w=w, h=h, type=t, exposure=4, client=3, prefill=0x42))
+    # averaging switched on/off by a re-configuration during the acquisition (source and filter both write the sink ring)
+    out += [cfg('c08', 'D2', prog=p) for p in ('FswAS', 'FswAwS', 'AswFwS', 'FsAS')] + [cfg('c08', 1, prog='FswAS')]
     out += [cfg('c04', 1, n=4, ringf=3, ringx=8, w=5, h=1, type=0, exposure=4, client=3),
             cfg('c04', 1, n=4, ringf=3, ringx=40, w=3, h=3, type=1, exposure=4, client=3)]
     if tier == 'thorough':
@@ -155,13 +164,14 @@ def c05_cfgs(tier):
 
 def c06_cfgs(tier):
     base = dict(exposure=4, n=3, ringf=2, ringx=8)
-    progs = ['m', 'mm', 'p', 'pm', 'z', 'hm', 'mH', 'wm']
+    progs = ['m', 'mm', 'p', 'pm', 'z', 'hm', 'mH', 'wm', 'w', 'ww']
     q = [cfg('c06', 'D1', ends=e, prog=p, **base) for e in ('ss', 'as', 'sa') for p in progs]
     q += [cfg('c06', 'D2', ends='ss', prog='mm', **base), cfg('c06', 'D2', ends='as', prog='pm', **base), cfg('c06', 'D2', ends='ss', prog='m', **{**base, 'from': 1}),
           cfg('c06', 'D2', ends='as', prog='mH', **base), cfg('c06', 'D2', ends='sa', prog='hm', **base), cfg('c06', 1, ends='as', prog='m', **{**base, 'n': 2}),
           cfg('c06u', 'D1', ends='s', prog='m', undrained_stop=1, **base)]
     # a client that falls behind across a ring wrap and releases one frame per poll (3-frame ring, 5 frames)
     lag = dict(exposure=4, n=5, ringf=3, ringx=8)
+    q += [cfg('c06', 'D1', ends=e, prog=p, **base) for e in ('as', 'aa', 'asa') for p in ('mL', 'L', 'wmL')] + [cfg('c06', 'D2', ends='as', prog='mL', **base)]
     q += [cfg('c06', 'D1', ends='ss', prog=p, **lag) for p in ('wp', 'wwp', 'wpp', 'pwp', 'wwpp')] + [cfg('c06', 'D2', ends='s', prog='wwp', **lag), cfg('c06', 'D2', ends='sa', prog='wpp', **lag)]
     if tier == 'quick':
         return q
@@ -185,11 +195,12 @@ def c07_cfgs(tier):
                   dict(n=1000000, variant=0, **full),                 # ring full, source asleep
                   dict(n=1000000, variant=0, avg=2, **base),          # averaging active
                   dict(n=1000000, variant=1, prog='mH', **base),      # client holds a mapped region across its own abort
+                  dict(n=1000000, variant=1, prog='mL', **base),      # ... and hands it back only after the follow-up acquisition has started
                   dict(n=3, variant=0, ctl_stop=1, **base),           # stop from another thread on a finite acquisition
                   dict(n=1000000, variant=2, **base),                 # two concurrent aborts
                   dict(n=1000000, variant=0, client_polls=1, **base)]  # client polling while another thread aborts
     q = [cfg('c07', 'D2', **sit) for sit in situations]
-    q += [cfg('c07', 1, **situations[0]), cfg('c07', 'D3', **situations[3])]
+    q += [cfg('c07', 1, **situations[0]), cfg('c07', 1, **situations[3])]
     if tier == 'quick':
         return q
     t = list(q)
@@ -221,7 +232,7 @@ def c09_cfgs(tier):
                 t.append(cfg('c09', 'D2', storefail=k, end_abort=end, ringf=ring[0], ringx=ring[1], append_ms=30, **base))
     t += [cfg('c09', 'D3', storefail=0, end_abort=0, ringf=1, ringx=1, append_ms=30, **base), cfg('c09', 'D3', camfail=1, end_abort=0, ringf=2, ringx=8, **base),
           cfg('c09', 'D3', storefail=1, end_abort=1, ringf=2, ringx=8, **base),
-          cfg('c09', 'D2', storefail=1, end_abort=0, ringf=2, ringx=8, avg=2, **{**base, 'n': 4}), cfg('c09', 'D2', camfail=1, end_abort=0, ringf=2, ringx=8, client_polls=1, **base),
+          cfg('c09', 'D2', camfail=1, end_abort=0, ringf=2, ringx=8, client_polls=1, **base),
           cfg('c09', 1, storefail=1, end_abort=0, ringf=2, ringx=8, **base), cfg('c09', 1, camfail=2, end_abort=1, ringf=2, ringx=8, **base)]
     return t
 
@@ -229,6 +240,7 @@ def c09_cfgs(tier):
 def c10_cfgs(tier):
     base = dict(exposure=4, prefill=0x42, ringf=2, ringx=8, fringf=2, fringx=8)
     q = [cfg('c10', 1, avg=2, n=n, **base) for n in (2, 3, 4)]
+    q += [cfg('c10', 1, avg=2, n=4, **{**base, 'ringf': 3, 'fringf': 3}), cfg('c10', 'D2', avg=3, n=6, **{**base, 'fringf': 3})]   # the input ring wraps between the filter's last poll and the stop signal
     q += [cfg('c10', 0, avg=2, n=5, type=t, **base) for t in (0, 1, 2, 3, 5, 6, 7)]
     q += [cfg('c10', 1, avg=2, n=4, **{**base, 'exposure': 0, 'fringf': 1}),   # camera without exposure wait: the source outruns the filter thread
           cfg('c10', 0, avg=3, n=7, w=2, h=2, **base), cfg('c10', 0, avg=2, n=6, **{**base, 'prefill': 0}), cfg('c10', 0, avg=2, n=4, client=1, **base)]
@@ -266,10 +278,11 @@ def c08_programs(depth):
 
 def c08_cfgs(tier):
     if tier == 'quick':
-        progs = c08_programs(3) + ['AsSBsS', 'AsBsS', 'AsAS', 'AsaXAsS', 'AsmSu', 'AssS', 'AsXAs', 'ABsSa', 'AsSsa', 'Asmau', 'AstS', 'AsCS', 'AsDS', 'AsCsS', 'AsDsS', 'CsAS', 'AswCS']
+        progs = c08_programs(3) + ['AsSBsS', 'AsBsS', 'AsAS', 'AsaXAsS', 'AsmSu', 'AssS', 'AsXAs', 'ABsSa', 'AsSsa', 'Asmau', 'AstS', 'AsCS', 'AsDS', 'AsCsS', 'AsDsS', 'CsAS', 'AswCS',
+                                   'FsAS', 'FswAS', 'AsFS', 'AswFwS', 'FsS', 'AsRS', 'AsRsS', 'RsS', 'AsRwsS', 'AsRa']
         c = [cfg('c08', 'D1', prog=p) for p in progs]
         c += [cfg('c08', 0, prog=p) for p in ('AsS', 'Asa', 'AsBS', 'AsAS', 'AsSsS', 'AsaAsS')]
-        c += [cfg('c08', 'D2', prog=p) for p in ('AsS', 'Asa', 'AsBS', 'AsAS', 'AsCS', 'AsDS', 'AsXAsS', 'AsmSu', '2sa', '2sSA')]
+        c += [cfg('c08', 'D2', prog=p) for p in ('AsS', 'Asa', 'AsBS', 'AsAS', 'AsCS', 'AsDS', 'AsXAsS', 'AsmSu', '2sa', '2sSA', 'FswAS', 'AswFwS', 'AsRsS')]
         return c
     progs = c08_programs(4) + [p + q for p in ('AsS', 'Asa', 'AsB') for q in ('BsS', 'XAs', 'sS', 'AsS', 'as')]
     c = [cfg('c08', 'D1', prog=p) for p in progs]
@@ -316,11 +329,40 @@ TABLE = {
 }
 
 
+def _heavy(c):
+    return (c['model'] == 'delay' and c['bound'] >= 2) or (c['model'] == 'preemption' and c['bound'] >= 1)
+
+
+def _merge(a, b):
+    out = dict(a)
+    for k in ('states', 'transitions', 'traces_validated_against_impl', 'executions', 'configurations', 'configurations_skipped_at_deadline', 'distinct_outcomes_summed_over_configurations'):
+        out[k] = a.get(k, 0) + b.get(k, 0)
+    out['exhaustive'] = a['exhaustive'] and b['exhaustive']
+    out['repository_edges_covered'] = max(a.get('repository_edges_covered', 0), b.get('repository_edges_covered', 0))
+    ev = dict(a.get('events', {}))
+    for k, v in b.get('events', {}).items():
+        ev[k] = ev.get(k, 0) + v
+    out['events'] = ev
+    out['bounds'] = {'configurations': (b['bounds']['configurations'] + a['bounds']['configurations'])[:400]}
+    out['samples'] = (b['samples'] + a['samples'])[:10]
+    return out
+
+
 def run(pid, tier):
     rep = C.Report(pid, tier)
     exe = build_rt('simcam_main' if pid == 'C18' else 'rt_main')
     fn, label = TABLE[pid]
     budget = C.deadline_s(3000 if tier == 'thorough' else 600)
+    t0 = time.time()
     cfgs = fn(tier)
-    run_cfgs(rep, exe, cfgs, budget, label, par=C.NPROC if pid in ('C08', 'C05', 'C18') else 1)
+    if pid in ('C08', 'C05', 'C18'):
+        # many small configurations: one worker each, 16 at a time; the few deep ones afterwards with 16 workers each
+        light = [c for c in cfgs if not _heavy(c)]
+        heavy = [c for c in cfgs if _heavy(c)]
+        run_cfgs(rep, exe, light, budget * 0.5, label, par=C.NPROC)
+        cov_l = rep.coverage
+        run_cfgs(rep, exe, heavy, max(5.0, budget - (time.time() - t0)), label, par=1)
+        rep.coverage = _merge(cov_l, rep.coverage)
+    else:
+        run_cfgs(rep, exe, cfgs, budget, label, par=1)
     rep.finish()
